@@ -366,6 +366,9 @@ pub enum ROp {
     InsertIdle,
     CancelIdle(usize),
     DropIdle(usize),
+    /// LoopSignal::stop(): only means something to run()/block_on(); a dispatch() made by hand
+    /// processes its events and runs its idles all the same
+    Stop,
     // in-callback only
     Return(Ret),
     DeferDisable,
@@ -478,6 +481,8 @@ pub struct RRt {
 
 pub struct RCtx {
     pub h: LoopHandle<'static, RCtx>,
+    pub signal: calloop::LoopSignal,
+    pub stop_requested: bool,
     pub cfg: Rc<RCfg>,
     pub m: Vec<RA>,
     pub rt: Vec<RRt>,
@@ -815,6 +820,9 @@ impl RCtx {
                     v.push(ROp::DropIdle(k));
                 }
             }
+            if !self.stop_requested {
+                v.push(ROp::Stop);
+            }
         }
         v
     }
@@ -859,6 +867,9 @@ impl RCtx {
                 if i.st == IdleSt::Pending && !i.handle_dropped && Some(k) != idle {
                     v.push(ROp::CancelIdle(k));
                 }
+            }
+            if !self.stop_requested {
+                v.push(ROp::Stop);
             }
         }
         v
@@ -1265,6 +1276,10 @@ impl RCtx {
                 self.idle_handles[k].take();
                 self.idles[k].handle_dropped = true;
             }
+            ROp::Stop => {
+                self.signal.stop();
+                self.stop_requested = true;
+            }
             ROp::Dispatch | ROp::Return(_) | ROp::DeferDisable | ROp::DeferUpdate | ROp::RemoveSelf | ROp::RemoveSelfReinsert => unreachable!(),
         }
     }
@@ -1557,6 +1572,7 @@ impl RCtx {
             (e.fd - self.epfd, e.events, e.data).hash(&mut h);
         }
         self.any_fault.hash(&mut h);
+        self.stop_requested.hash(&mut h);
         h.finish()
     }
 }
@@ -1568,6 +1584,8 @@ pub fn run_history(cfg: &Rc<RCfg>, verbose: bool) -> (Outcome, Option<Vec<String
     let epfd = el.as_raw_fd();
     let mut ctx = RCtx {
         h: el.handle(),
+        signal: el.get_signal(),
+        stop_requested: false,
         cfg: cfg.clone(),
         m: vec![],
         rt: vec![],
@@ -1712,7 +1730,7 @@ fn step(el: &mut EventLoop<'static, RCtx>, ctx: &mut RCtx, op: ROp) -> bool {
             ctx.transitions += 1;
             ctx.pre_dispatch();
             let _ = seqhooks::take_waits();
-            let r = catch_unwind(AssertUnwindSafe(|| el.dispatch(Some(Duration::ZERO), ctx)));
+            let r = catch_unwind(AssertUnwindSafe(|| el.dispatch(Some(Duration::from_secs(1)), ctx)));
             let waits = seqhooks::take_waits();
             match r {
                 Ok(r) => {
